@@ -275,8 +275,7 @@ def run(ctx):
     ctx.floor("R-C16-W", 5)
 
 
-def rule_stream(ctx):
-    R = "R-C16-3"
+def rule_stream(ctx, R="R-C16-3"):
     fi = ctx.repo.find_method(ctx.repo.mod(MT).cls("MidiTrack"), "play_Bar")
     for sc in scenarios(ctx.tier == "thorough"):
         label = "%s%s" % ("|".join(",".join(b) for b in sc.bars), "" if sc.instrument is None else " +instr")
